@@ -152,8 +152,9 @@ func Marshal(v interface{}) (b []byte, err error, pan string) {
 	return
 }
 
-// panicSite returns the two innermost lime-go frames on the panicking stack,
-// "Inner<-Caller" (called from a deferred function); this is the stable
+// panicSite returns the innermost lime-go frame on the panicking stack and,
+// unless that is a decoder entry point, its lime-go caller: "Inner<-Caller"
+// (called from a deferred function); this is the stable
 // identity of a panic, independent of the input that reached it.
 func panicSite() string {
 	pc := make([]uintptr, 64)
@@ -172,6 +173,11 @@ func panicSite() string {
 	}
 	if len(sites) == 0 {
 		return "?"
+	}
+	// the same faulty function is reached from the typed decoder and from the
+	// transport: do not let the entry point split one root cause in two
+	if len(sites) == 2 && (strings.HasSuffix(sites[1], ".UnmarshalJSON") || strings.HasSuffix(sites[1], ".toEnvelope") || strings.HasSuffix(sites[1], ".Receive")) {
+		sites = sites[:1]
 	}
 	return strings.Join(sites, "<-")
 }
